@@ -40,15 +40,79 @@ COLUMNS = {
 }
 
 
-def column_value(f, col):
+def _scalar(v):
+    return v.elts[0] if isinstance(v, (ast.List, ast.Tuple)) and len(v.elts) == 1 else v
+
+
+def _dict_entries(f, e, d=0):
+    """{column: value expr} spelled by a dictionary expression: a display, dict(k=v), a local
+    naming one, or {name: [value] for name, value in <such a dictionary>.items()}"""
+    from ..paths import assigned_names
+    if d > 5:
+        return None
+    if isinstance(e, ast.Dict):
+        if all(isinstance(k, ast.Constant) and isinstance(k.value, str) for k in e.keys):
+            return {k.value: _scalar(v) for k, v in zip(e.keys, e.values)}
+        return None
+    if isinstance(e, ast.Call) and isinstance(e.func, ast.Name) and e.func.id == 'dict' and not e.args:
+        return {k.arg: _scalar(k.value) for k in e.keywords if k.arg}
+    if isinstance(e, ast.Name):
+        defs = assigned_names(f).get(e.id, [])
+        if len(defs) == 1 and isinstance(defs[0], ast.Assign):
+            ent = _dict_entries(f, defs[0].value, d + 1)
+            if ent is None:
+                return None
+            # later item stores into the same local
+            for n in walk_no_nested(f.node):
+                if isinstance(n, ast.Assign) and len(n.targets) == 1 and isinstance(n.targets[0], ast.Subscript) \
+                        and isinstance(n.targets[0].value, ast.Name) and n.targets[0].value.id == e.id \
+                        and isinstance(n.targets[0].slice, ast.Constant):
+                    ent[n.targets[0].slice.value] = _scalar(n.value)
+            return ent
+        return None
+    if isinstance(e, ast.DictComp) and len(e.generators) == 1 and not e.generators[0].ifs:
+        g = e.generators[0]
+        it = g.iter
+        if isinstance(it, ast.Call) and isinstance(it.func, ast.Attribute) and it.func.attr == 'items' and not it.args \
+                and isinstance(g.target, ast.Tuple) and len(g.target.elts) == 2 and all(
+                    isinstance(x, ast.Name) for x in g.target.elts):
+            kn, vn = g.target.elts[0].id, g.target.elts[1].id
+            val = _scalar(e.value)
+            if isinstance(e.key, ast.Name) and e.key.id == kn and isinstance(val, ast.Name) and val.id == vn:
+                return _dict_entries(f, it.func.value, d + 1)
+    if isinstance(e, (ast.List, ast.Tuple)) and len(e.elts) == 1:
+        return _dict_entries(f, e.elts[0], d + 1)       # DataFrame([row])
+    return None
+
+
+def frame_columns(f):
+    """{column: (statement, value expr)} of the data frame a to_df builds: item stores df[col] = [v]
+    and the dictionary given to pd.DataFrame(...)"""
+    cols = {}
+    for n in walk_no_nested(f.node):
+        if isinstance(n, ast.Call) and call_name(n) == 'DataFrame' and n.args:
+            ent = _dict_entries(f, n.args[0])
+            for k, v in (ent or {}).items():
+                cols[k] = (n, v)
     for n in walk_no_nested(f.node):
         if isinstance(n, ast.Assign) and len(n.targets) == 1 and isinstance(n.targets[0], ast.Subscript) \
-                and isinstance(n.targets[0].slice, ast.Constant) and n.targets[0].slice.value == col:
-            v = n.value
-            if isinstance(v, ast.List) and len(v.elts) == 1:
-                return n, v.elts[0]
-            return n, v
-    return None, None
+                and isinstance(n.targets[0].slice, ast.Constant) and isinstance(n.targets[0].slice.value, str):
+            cols[n.targets[0].slice.value] = (n, _scalar(n.value))
+    return cols
+
+
+def column_value(f, col):
+    n, v = frame_columns(f).get(col, (None, None))
+    if isinstance(v, ast.Name):
+        from .common import resolve_name_chain
+        from ..paths import assigned_names
+        v2 = resolve_name_chain(f, v)
+        defs = assigned_names(f).get(v2.id, []) if isinstance(v2, ast.Name) else []
+        if len(defs) == 1 and isinstance(defs[0], ast.Assign) and len(defs[0].targets) == 1 and isinstance(
+                defs[0].targets[0], ast.Name):
+            return n, defs[0].value
+        return n, v2
+    return n, v
 
 
 def count_status(repo, canon, f, expr):
